@@ -4,7 +4,7 @@
     [esub t s] = the bindings of t, expanded, are bindings of the notation-free map s.  Partial-correctness
     form over the fuel (termination: Py/Termination.v). *)
 From Coq Require Import NArith List Bool.
-From Pi2 Require Import ML.Syntax Py.Pattern Py.PatFacts Py.ExpandFacts Py.MatchFacts Py.Termination Py.Total Py.Witness.
+From Pi2 Require Import ML.Syntax Py.Pattern Py.PatFacts Py.ExpandFacts Py.MatchFacts Py.Termination Py.Total Py.Bridge Py.Current Py.Witness.
 Import ListNotations.
 Open Scope N_scope.
 
@@ -135,3 +135,50 @@ Proof.
   exists d5_pat, (PImp (PEVar 7) (pphi 0)), [(1, pphi 0)], 30%nat, (PInst (PImp (pphi 0) (pphi 0)) [(0, PEVar 7)]).
   vm_compute. repeat split; reflexivity.
 Qed.
+
+(** ================================================================================================
+    For the configuration the CURRENT code is in ([flags_current], D9d present), on corner-free inputs
+    (Py/Bridge.v; see Props/C12.v). *)
+Theorem C13_bridge_match_single : forall se ss f n p i ret,
+  corner_free se ss p = true -> corner_free se ss i = true -> cfd se ss ret = true ->
+  match_single f n p i ret = match_single (with_keep f) n p i ret /\
+  forall th, match_single (with_keep f) n p i ret = Some (Some th) -> cfd se ss th = true.
+Proof. exact match_single_bridge. Qed.
+Theorem C13_bridge_match_list : forall se ss f n eqs ret,
+  forallb (fun e => corner_free se ss (fst e) && corner_free se ss (snd e)) eqs = true -> cfd se ss ret = true ->
+  match_list f n eqs ret = match_list (with_keep f) n eqs ret.
+Proof. exact match_list_bridge. Qed.
+Theorem C13_bridge_assert_matches : forall se ss f n nt p,
+  corner_free se ss (nt_def nt) = true -> corner_free se ss p = true -> nassert f n nt p = nassert (with_keep f) n nt p.
+Proof. exact nassert_bridge. Qed.
+
+Theorem C13_match_sound_current_code : forall se ss n p i seed th,
+  corner_free se ss p = true -> corner_free se ss i = true -> cfd se ss seed = true ->
+  match_single flags_current n p i seed = Some (Some th) ->
+  sub seed th /\ cfd se ss th = true /\
+  forall th', cfd se ss th' = true -> sub th th' ->
+    p_inst flags_current (expand flags_current p) (expand_delta flags_current th') = expand flags_current i.
+Proof. exact (fun se ss => match_sound_cur se ss flags_current eq_refl). Qed.
+Theorem C13_match_complete_current_code : forall se ss n p i seed s res,
+  corner_free se ss p = true -> corner_free se ss i = true -> cfd se ss seed = true ->
+  nosub (expand flags_current p) = true ->
+  p_inst flags_current (expand flags_current p) s = expand flags_current i ->
+  (forall k, In k (p_metavars (expand flags_current p)) -> alookup k s <> None) ->
+  esub flags_current seed s ->
+  match_single flags_current n p i seed = Some res ->
+  exists th, res = Some th /\ esub flags_current th s.
+Proof. exact (fun se ss => match_complete_cur se ss flags_current eq_refl eq_refl). Qed.
+Print Assumptions C13_match_complete_current_code.
+
+Example C13_ex_current_unconstrained :
+  let p := and_p (pphi 0) (PImp (pphi 1) (pphi 0)) in
+  let i := and_p (neg_p (PEVar 1)) (PImp (PESub (pphi 2) 1 (PEVar 2)) (neg_p (PEVar 1))) in
+  corner_free [1] [] p = true /\ corner_free [1] [] i = true /\
+  match_single flags_current 30 p i [] = Some (Some [(0, neg_p (PEVar 1)); (1, PESub (pphi 2) 1 (PEVar 2))]).
+Proof. vm_compute. repeat split; reflexivity. Qed.
+Example C13_ex_current_constrained :
+  let p := PImp (PMVar 0 [3] [] [] [] []) (pphi 1) in
+  let i := PImp (neg_p (PEVar 1)) (PESub (pphi 2) 1 (PEVar 2)) in
+  corner_free [1] [] p = true /\ corner_free [1] [] i = true /\
+  match_single flags_current 30 p i [] = Some (Some [(0, neg_p (PEVar 1)); (1, PESub (pphi 2) 1 (PEVar 2))]).
+Proof. vm_compute. repeat split; reflexivity. Qed.
